@@ -226,7 +226,26 @@ pub fn dec_syms(e: &Enc, with_bom: bool, words: bool, runs: &[usize]) -> Vec<Vec
         }
     }
     for &n in runs {
-        push_unique(&mut v, run_sym(n));
+        match e.kind {
+            // UTF-16: a run of n Basic Latin code units (the accelerated Basic Latin paths), and
+            // for the 16-ish lengths also the plain byte run (units that are not Basic Latin)
+            Kind::Utf16Le | Kind::Utf16Be => {
+                let mut r = vec![];
+                for i in 0..n {
+                    let c = b'a' + (i % 26) as u8;
+                    if e.kind == Kind::Utf16Be {
+                        r.extend_from_slice(&[0, c]);
+                    } else {
+                        r.extend_from_slice(&[c, 0]);
+                    }
+                }
+                push_unique(&mut v, r);
+                if n <= 17 {
+                    push_unique(&mut v, run_sym(n));
+                }
+            }
+            _ => push_unique(&mut v, run_sym(n)),
+        }
     }
     v
 }
